@@ -16,7 +16,8 @@ TEXTS = {
         technique="deterministic simulation: seeded interleavings with enabledness from the real mutexes; deadlock = empty enabled set",
         level_text="Same simulated world and schedule space as C04 (plus sustained-load runs in the thorough tier). A thread is released only when "
                    "TryLock on the real mutex it is about to take succeeds; a state in which requests remain but no thread is enabled is a real "
-                   "lock cycle and is reported with the schedule that produced it; every run ends with a drain phase (one more request per key and one naming all keys must complete), so a lock that is never released is found behaviourally.",
+                   "lock cycle and is reported with the schedule that produced it; every run ends with a drain phase (one more request per key and one naming all keys must complete), so a lock that is never released is found behaviourally. "
+                   "One worker runs free-running load (real unscheduled goroutines, crossing key orders) and reports requests that stay blocked across two goroutine dumps with nothing running - for locks the scheduler has no hook for.",
         level_note=TRUST + " A run that exhausts its (workload-derived) step budget is counted as truncated/inconclusive, never as a violation."),
 }
 TEXTS["C01"] = dict(
@@ -132,7 +133,8 @@ TEXTS["C20"] = dict(
     level_text="Seeded structure-aware generation of requests for every RPC of the four client-facing services and of key-generation messages from non-peers (boundary byte lengths, absent "
                "fields, extreme integers, empty / huge / nil-containing batches, malformed names, listing paths assembled from regular-expression fragments), passed through a protobuf wire round trip and handed to the real handlers of an instance "
                "hosted by the worker process, each followed by a canary request from another client. A panic on the handler goroutine is recorded in-process; a panic on any other goroutine "
-               "kills the worker, which the driver attributes to the seed written ahead of the run and confirms by replaying it in a fresh process.",
+               "kills the worker, which the driver attributes to the seed written ahead of the run and confirms by replaying it in a fresh process. Two workers send volleys of 8-32 "
+               "simultaneous requests (real parallelism) at a fresh instance with cold caches: failures that need two threads in the same code at the same instant.",
     level_note="An input-space property: no schedule is explored; the technique contributes process isolation, the canary and exact replay (DESIGN.md section 8). peers.Suitable is re-implemented, so "
                "its allocation of one slot per requested participant is not exercised. Resource exhaustion is reported only if the process dies in this sandbox.")
 TEXTS["C07"] = dict(
